@@ -333,10 +333,221 @@ def replay(space, path):
         space.worker_init()
     with open(path, encoding="utf-8") as f:
         rp = json.load(f)
-    r = space.run_case(rp["case"])
+    if getattr(space, "MODE", "product") == "bfs":
+        r = space.run_history(rp["case"])
+    else:
+        r = space.run_case(rp["case"])
     print(json.dumps({"case": rp["case"], "violations": r.get("viol")}, indent=1, ensure_ascii=False, default=repr))
     if r.get("viol"):
         print(f"VIOLATION property={space.ID} replay={path}")
         return 1
     print("no violation on this tree")
     return 0
+
+
+# ---------------------------------------------------------------------------------------------------------------
+# explicit-state breadth-first search over operation histories (stateless replay on the real code)
+# ---------------------------------------------------------------------------------------------------------------
+
+
+def _run_hist_chunk(chunk):
+    out = []
+    for hist in chunk:
+        try:
+            r = _SPACE.run_history(hist)
+        except Exception as e:  # noqa: BLE001
+            r = {
+                "key": "harness-error",
+                "disabled": False,
+                "viol": [
+                    {
+                        "case": json.dumps(hist, ensure_ascii=False)[:400],
+                        "diverge": "HARNESS-ERROR " + type(e).__name__ + ": " + str(e)[:200],
+                        "detail": traceback.format_exc()[-1500:],
+                    }
+                ],
+                "transitions": 0,
+            }
+        r["hist"] = hist
+        out.append(r)
+    return out
+
+
+def explore_bfs(space, tier, seed):
+    """Level-synchronous BFS. A state is the event history reaching it; every (state, operation) pair is executed on a
+    fresh sandbox by replaying the history through the real API while the reference model is stepped in lock-step;
+    the canonical state (model + masked implementation tree) is hashed to de-duplicate; invariants are evaluated on every
+    transition, including those that lead to an already-seen state."""
+    t0 = time.time()
+    name = space.__name__.split(".")[-1]
+    pid = space.ID
+    depth = space.DEPTH[tier]
+    ops = space.ops(tier)
+    budget_s = getattr(space, "BUDGET", {}).get(tier, 3000 if tier == "thorough" else 600)
+    chunk_size = getattr(space, "CHUNK", 20)
+    rnd = random.Random(seed)
+    pool = _pool(name, True, NPROC)
+    seen = {}
+    frontier = [[]]
+    transitions = 0
+    executed_ops = 0
+    disabled = 0
+    viols = []
+    nontrivial = set()
+    per_level = []
+    capped = False
+    completed_depth = 0
+    samples = []
+    first_fps = {}
+    try:
+        init = pool.apply(_run_hist_chunk, ([[]],))[0]
+        seen[init["key"]] = []
+        for d in range(1, depth + 1):
+            tasks = [h + [op] for h in frontier for op in ops]
+            rnd.shuffle(tasks)
+            chunks = [tasks[i : i + chunk_size] for i in range(0, len(tasks), chunk_size)]
+            new_frontier = []
+            level_new = 0
+            pending = []
+            pos = 0
+            aborted = False
+            while pos < len(chunks) or pending:
+                while pos < len(chunks) and len(pending) < NPROC * 3:
+                    if time.time() - t0 > budget_s:
+                        capped = True
+                        aborted = True
+                        pos = len(chunks)
+                        break
+                    pending.append(pool.apply_async(_run_hist_chunk, (chunks[pos],)))
+                    pos += 1
+                still = []
+                prog = False
+                for p in pending:
+                    if p.ready():
+                        prog = True
+                        for r in p.get():
+                            if r.get("disabled"):
+                                disabled += 1
+                                continue
+                            transitions += 1
+                            executed_ops += r.get("transitions", 0)
+                            if r.get("nontrivial"):
+                                nontrivial.add(r["key"])
+                            for v in r.get("viol", ()):
+                                v = dict(v)
+                                v["casedata"] = r["hist"]
+                                v["index"] = (d, json.dumps(r["hist"], sort_keys=True))
+                                viols.append(v)
+                            if len(first_fps) < 64:
+                                first_fps[json.dumps(r["hist"], sort_keys=True)] = (r["hist"], r["key"])
+                            if r["key"] not in seen:
+                                seen[r["key"]] = r["hist"]
+                                new_frontier.append(r["hist"])
+                                level_new += 1
+                    else:
+                        still.append(p)
+                pending = still
+                if not prog:
+                    time.sleep(0.005)
+            per_level.append({"depth": d, "transitions": len(tasks), "new_states": level_new})
+            if aborted:
+                break
+            completed_depth = d
+            new_frontier.sort(key=lambda h: json.dumps(h, sort_keys=True))
+            frontier = new_frontier
+            if not frontier:
+                break
+    finally:
+        pool.close()
+        pool.join()
+
+    # fresh-process, un-memoised re-execution of a slice: keys must be identical (determinism + replay conformance)
+    nondet = []
+    recheck = {"cases": 0, "identical": 0}
+    if first_fps and not os.environ.get("VERIF_NO_RECHECK"):
+        pool2 = _pool(name, False, min(NPROC, 8))
+        try:
+            hs = [v[0] for v in first_fps.values()]
+            res = pool2.map(_run_hist_chunk, [hs[i : i + 8] for i in range(0, len(hs), 8)])
+        finally:
+            pool2.close()
+            pool2.join()
+        for rs in res:
+            for r in rs:
+                recheck["cases"] += 1
+                k = json.dumps(r["hist"], sort_keys=True)
+                if first_fps[k][1] == r["key"]:
+                    recheck["identical"] += 1
+                else:
+                    nondet.append(k)
+
+    viols.sort(key=lambda v: (v["index"][0], v["index"][1]))
+    by_sig = {}
+    for v in viols:
+        by_sig.setdefault(v.get("sig") or v["diverge"], []).append(v)
+    known = kf.load(os.path.join(VERIF, "known_findings.json"))
+    nviol = 0
+    printed_known = set()
+    os.makedirs(os.path.join(VERIF, "replays"), exist_ok=True)
+    from .run import h64
+
+    for sig, vs in by_sig.items():
+        unlisted = None
+        for v in vs:
+            e = kf.match(known, pid, v["case"], v["diverge"])
+            if e is None:
+                unlisted = unlisted or v
+            elif e["id"] not in printed_known:
+                printed_known.add(e["id"])
+                print(f"KNOWN-FINDING: property={pid} {e['id']} {e['what']}")
+        if unlisted is not None:
+            nviol += 1
+            if nviol <= 20:
+                v = unlisted
+                path = os.path.join(VERIF, "replays", f"{pid}-{h64((v['case'], v['diverge']))}.json")
+                with open(path, "w", encoding="utf-8") as f:
+                    json.dump(
+                        {"property": pid, "space": name, "tier": tier, "case": v["casedata"], "case_str": v["case"], "diverge": v["diverge"], "detail": v.get("detail")},
+                        f,
+                        indent=1,
+                        ensure_ascii=False,
+                        default=repr,
+                    )
+                print(f"VIOLATION property={pid} replay={path}")
+                print(f"  case: {v['case'][:400]}")
+                print(f"  diverge: {v['diverge'][:400]}")
+    if nondet:
+        print(f"HARNESS-NONDETERMINISM property={pid} histories={nondet[:5]}")
+    keys = sorted(seen)
+    samples = [seen[keys[0]], seen[keys[len(keys) // 2]], seen[keys[-1]]] if keys else []
+    wall = time.time() - t0
+    cov = {
+        "states": len(seen),
+        "transitions": transitions,
+        "traces_validated_against_impl": transitions,
+        "evaluations": transitions,
+        "distinct_nontrivial": len(nontrivial),
+        "rule": space.RULE,
+        "samples": samples,
+        "exhaustive": not capped,
+        "completed_depth": completed_depth,
+        "target_depth": depth,
+        "operations_in_alphabet": len(ops),
+        "api_operations_executed": executed_ops,
+        "disabled_transitions": disabled,
+        "per_level": per_level,
+        "bounds": getattr(space, "BOUNDS", {}).get(tier, ""),
+        "cap_hit": capped,
+        "fresh_process_unmemoised_recheck": recheck,
+        "violation_signatures": nviol,
+        "known_findings_observed": sorted(printed_known),
+    }
+    ev.write(pid, tier, seed, cov, assumptions=getattr(space, "ASSUMPTIONS", []), wall=wall, violations=nviol)
+    print(
+        f"[{pid} {tier}] bfs depth={completed_depth}/{depth} states={len(seen)} transitions={transitions} disabled={disabled} "
+        f"nontrivial={len(nontrivial)} violations={nviol} known={len(printed_known)} capped={capped} "
+        f"recheck={recheck['identical']}/{recheck['cases']} wall={wall:.1f}s"
+    )
+    if nondet:
+        return 3
+    return 1 if nviol else 0
